@@ -19,7 +19,7 @@ Proof. revert a; induction l; simpl; auto. Qed.
 
 Lemma next_time_pending s : next_time s = fold_left qmin_opt (pending s) None.
 Proof.
-  unfold next_time, pending. rewrite !fold_left_app, !fold_qmin_map. reflexivity.
+  unfold next_time, pending. rewrite !fold_left_app, <- !fold_qmin_map. reflexivity.
 Qed.
 
 Lemma fold_qmin_spec l : forall a,
@@ -122,9 +122,9 @@ Qed.
 
 Lemma pin_rearm_inv cfg p : pin_inv cfg p -> pin_inv cfg (pin_rearm p).
 Proof.
-  intros (H1 & H2 & H3 & H4). unfold pin_rearm, pin_inv; simpl. repeat split; auto.
+  intros (H1 & H2 & H3 & H4). unfold pin_rearm, pin_inv; cbn [ps_clk ps_half ps_next ps_next_rising ps_count]. repeat split; auto.
   - rewrite Qred_correct, H3, Q_of_N_succ. ring.
-  - rewrite H4. unfold edge_pol. rewrite !N.odd_succ, <- N.negb_odd.
+  - rewrite H4. unfold edge_pol. rewrite (N.odd_succ (N.succ (ps_count p))), N.even_succ, N.odd_succ, <- N.negb_odd.
     destruct (start_high cfg (ps_clk p)), (N.odd (ps_count p)); reflexivity.
 Qed.
 
@@ -155,10 +155,8 @@ Proof.
   unfold sched_init, sinv; simpl. split.
   - rewrite map_map. simpl. apply map_id.
   - rewrite Forall_forall. intros p Hin. apply in_map_iff in Hin. destruct Hin as (c & <- & Hc).
-    unfold pin_inv, pin_init; simpl. repeat split; auto.
-    + rewrite Qred_correct. unfold Q_of_N. simpl. ring.
-    + unfold edge_pol, start_high. simpl.
-      destruct (trigger_eqb (ck_trig (get_clock (cfg_clocks cfg) c)) RISING); reflexivity.
+    unfold pin_inv, pin_init; cbn [ps_clk ps_half ps_next ps_next_rising ps_count]. repeat split; auto.
+    rewrite Qred_correct. change (Q_of_N 0) with 0%Q. ring.
 Qed.
 
 Lemma sinv_after cfg n : forall s, sinv cfg s -> sinv cfg (sched_after n s).
@@ -184,7 +182,7 @@ Lemma step_events cfg s s' ie c r k :
 Proof.
   intros [H1 H2] E Hin. apply sched_step_inv in E.
   destruct E as (t & _ & Ht & _ & _ & Hclk & _). rewrite Hclk in Hin.
-  apply in_map_iff in Hin. destruct Hin as (p & Ep & Hp). inversion Ep; subst; clear Ep.
+  apply in_map_iff in Hin. destruct Hin as (p & Ep & Hp). inversion Ep as [[Ec Er Ek]]. subst c r k. clear Ep.
   apply filter_In in Hp. destruct Hp as [Hp Hf]. apply Qeq_bool_eq in Hf.
   rewrite Forall_forall in H2. destruct (H2 p Hp) as (I1 & I2 & I3 & I4).
   repeat split; auto.
@@ -311,7 +309,7 @@ Proof.
   - intros x Hx. rewrite Hnow.
     destruct (in_pending_step _ _ _ _ _ E Et Hx) as [(p & Hp & ->)|[Hp Hne]].
     + unfold step_pin. destruct (Qeq_bool (ps_next p) t) eqn:Eq.
-      * apply Qeq_bool_eq in Eq. simpl. rewrite Qred_correct, Eq.
+      * apply Qeq_bool_eq in Eq. unfold pin_rearm. cbn [ps_next]. rewrite Qred_correct, Eq.
         destruct Hs as [_ Hall]. rewrite Forall_forall in Hall.
         pose proof (pin_half_pos cfg p Hf (Hall p Hp)) as Hpos.
         rewrite <- (Qplus_0_r t) at 1. apply Qplus_lt_r. exact Hpos.
@@ -347,20 +345,21 @@ Lemma future_init cfg :
   (forall e, In e (cfg_stim cfg) -> (0 <= fst e)%Q) ->
   future (sched_init cfg).
 Proof.
-  intros Hf [Hr Hh] Hst x Hx. unfold sched_init, pending in Hx; simpl in *.
+  intros Hf [Hr Hh] Hst x Hx. unfold future, sched_init, pending in *. cbn [sc_pins sc_rst sc_stim sc_now] in *.
   apply in_app_or in Hx. destruct Hx as [Hx|Hx].
-  - rewrite map_map in Hx. apply in_map_iff in Hx. destruct Hx as (c & <- & Hc). simpl.
+  - rewrite map_map in Hx. apply in_map_iff in Hx. destruct Hx as (c & <- & Hc).
+    unfold pin_init. cbn [ps_next].
     rewrite Qred_correct, Qplus_0_l, half_period_eq. apply (half_of_pos cfg c Hf Hc).
   - apply in_app_or in Hx. destruct Hx as [Hx|Hx].
     + apply in_map_iff in Hx. destruct Hx as (e & <- & He).
       apply in_app_or in He. destruct He as [He|He]; [|apply Hr, He].
       unfold poweron_releases in He. apply in_flat_map in He. destruct He as (s & Hs & He).
       destruct (Qis_zero (reset_hold_time cfg s)) eqn:Ez; [contradiction|].
-      destruct He as [<-|[]]. simpl. rewrite Qred_correct, Qplus_0_l.
+      destruct He as [<-|[]]. cbn [fst]. rewrite Qred_correct, Qplus_0_l.
       apply Qis_zero_false_pos; [exact Ez | apply Hh, Hs].
     + apply in_map_iff in Hx. destruct Hx as (e & <- & He).
       destruct (number_stims_in _ _ _ He) as (w & Hw).
-      unfold stim_later in Hw. apply filter_In in Hw. destruct Hw as [Hw Hz]. simpl in Hz.
+      unfold stim_later in Hw. apply filter_In in Hw. destruct Hw as [Hw Hz]. cbn [fst] in Hz.
       apply Qis_zero_false_pos; [apply negb_true_iff; exact Hz | apply (Hst _ Hw)].
 Qed.
 
@@ -465,12 +464,12 @@ Proof.
   repeat split.
   - rewrite Hnow. apply G2, Hin.
   - intros x Hx. destruct (in_pending_step _ _ _ _ _ E Et Hx) as [(p & Hpin & ->)|[Hpin _]]; [|apply G2, Hpin].
-    unfold step_pin. destruct (Qeq_bool (ps_next p) t); simpl.
+    unfold step_pin. destruct (Qeq_bool (ps_next p) t); [unfold pin_rearm; cbn [ps_next]|].
     + apply (on_grid_eq u (ps_next p + ps_half p)%Q); [symmetry; apply Qred_correct|].
       apply on_grid_plus; [apply G2; unfold pending; apply in_or_app; left; apply in_map, Hpin | apply G3, Hpin].
     + apply G2. unfold pending. apply in_or_app. left. apply in_map, Hpin.
   - intros p Hpin. rewrite Hp in Hpin. apply in_map_iff in Hpin. destruct Hpin as (q & <- & Hq).
-    unfold step_pin. destruct (Qeq_bool (ps_next q) t); simpl; apply G3, Hq.
+    unfold step_pin. destruct (Qeq_bool (ps_next q) t); [unfold pin_rearm; cbn [ps_half]|]; apply G3, Hq.
 Qed.
 
 Lemma step_some s : sc_pins s <> [] -> exists s' ie, sched_step s = Some (s', ie).
@@ -574,7 +573,7 @@ Proof.
   { assert (Hin : In (half_period (absfreq (cfg_clocks cfg) c)) (map ps_half (sc_pins s0))).
     { unfold s0; simpl. rewrite map_map. simpl. apply in_map_iff. exists c. split; [reflexivity | exact Hc]. }
     destruct (HD _ (in_or_app _ _ _ (or_intror Hin))) as [M HM]. exists M.
-    rewrite <- HM. symmetry. apply half_period_eq. }
+    unfold half_of. rewrite <- half_period_eq. exact HM. }
   destruct HM as [M HM].
   set (n := N.to_nat (k * M)).
   assert (Hne : clock_pins cfg <> []) by (intro C; rewrite C in Hc; contradiction).
@@ -688,14 +687,14 @@ Lemma even_time cfg c j : (Q_of_N (2 * j) * half_of cfg c == Q_of_N j * period_o
 Proof.
   unfold half_of, period_of, Q_of_N. rewrite N2Z.inj_mul, inject_Z_mult. simpl (Z.of_N 2).
   unfold Qdiv. setoid_replace (inject_Z 2) with 2%Q by reflexivity.
-  set (x := / absfreq (cfg_clocks cfg) c). ring.
+  set (x := (/ absfreq (cfg_clocks cfg) c)%Q). ring.
 Qed.
 Lemma odd_time cfg c j : (Q_of_N (2 * j + 1) * half_of cfg c == (Q_of_N j + (1 # 2)) * period_of cfg c)%Q.
 Proof.
   unfold half_of, period_of, Q_of_N. rewrite N2Z.inj_add, N2Z.inj_mul, inject_Z_plus, inject_Z_mult.
   simpl (Z.of_N 2). simpl (Z.of_N 1). unfold Qdiv.
   setoid_replace (inject_Z 2) with 2%Q by reflexivity. setoid_replace (inject_Z 1) with 1%Q by reflexivity.
-  set (x := / absfreq (cfg_clocks cfg) c). ring.
+  set (x := (/ absfreq (cfg_clocks cfg) c)%Q). ring.
 Qed.
 
 (* single-edge domain on a pin with the same edge (every root clock; derived clocks with their own pin or the
@@ -759,14 +758,16 @@ Theorem activation_times_on_dual_pin cfg n ie c :
    (domain_advanced cfg ie c = true <-> exists j, (1 <= j)%N /\ (ie_time ie == Q_of_N j * period_of cfg c)%Q)).
 Proof.
   intros Hok Hwf Hrel Hin Hp. split; intro Hc;
-    rewrite (activation_times_general cfg n ie c Hok Hwf Hrel Hin), Hp, Hc, activates_on_dual_pin.
+    rewrite (activation_times_general cfg n ie c Hok Hwf Hrel Hin), Hp, Hc.
   - split.
-    + intros (k & Hk & Ht & Ha). apply N.odd_spec in Ha. destruct Ha as [j ->]. exists j. rewrite Ht. apply odd_time.
+    + intros (k & Hk & Ht & Ha). rewrite activates_on_dual_pin in Ha.
+      apply N.odd_spec in Ha. destruct Ha as [j ->]. exists j. rewrite Ht. apply odd_time.
     + intros (j & Ht). exists (2 * j + 1)%N. repeat split; [lia | rewrite Ht; symmetry; apply odd_time |].
-      apply N.odd_spec. exists j. reflexivity.
+      rewrite activates_on_dual_pin. apply N.odd_spec. exists j. reflexivity.
   - split.
-    + intros (k & Hk & Ht & Ha). apply N.even_spec in Ha. destruct Ha as [j ->]. exists j. split; [lia|].
+    + intros (k & Hk & Ht & Ha). rewrite activates_on_dual_pin in Ha.
+      apply N.even_spec in Ha. destruct Ha as [j ->]. exists j. split; [lia|].
       rewrite Ht. apply even_time.
     + intros (j & Hj & Ht). exists (2 * j)%N. repeat split; [lia | rewrite Ht; symmetry; apply even_time |].
-      apply N.even_spec. exists j. reflexivity.
+      rewrite activates_on_dual_pin. apply N.even_spec. exists j. reflexivity.
 Qed.
